@@ -708,7 +708,12 @@ def _xr_reproject_ds(
             dv, how=dst_geobox, resampling=resampling, dst_nodata=dst_nodata, **kw
         )
 
-    return src.map(_maybe_reproject)
+    # NOTE: not using ``src.map(..)`` here: depending on xarray version it
+    # copies attributes of the source variables/coordinates/dataset over the
+    # freshly computed ones, bringing back stale CRS information.
+    data_vars = {name: _maybe_reproject(dv) for name, dv in src.data_vars.items()}
+    attrs = {k: v for k, v in src.attrs.items() if k not in SPATIAL_ATTRIBUTES}
+    return xarray.Dataset(data_vars, attrs=attrs)
 
 
 def _xr_reproject_da(
